@@ -1,0 +1,9 @@
+//go:build !verif
+
+// Package verifhook marks the boundaries at which the verification machinery
+// in /verif stops, pauses or kills the process. Without the build tag "verif"
+// Point is an empty function.
+package verifhook
+
+// Point marks a boundary; it does nothing in a regular build.
+func Point(name string) {}
